@@ -342,6 +342,22 @@ def run(ctx):
     ctx.run("C14.decode", words, chunk=1500,
             rule=f"all pin words of length <= {wmax} ({len(words)}); every one must decode; "
                  "non-trivial = has a direction letter")
+    # longer words (the decoder keeps a bounding box: an OLD pin can stay extreme for arbitrarily long).  Added
+    # after seeded change C14_d - only the five most recent pins were passed on - was missed: it shows from
+    # length 7 on.  Strict words (one numeral + alternating directions) of length 7-9 exhaustively, general
+    # pin words of length 7-12 by seeded rejection sampling.
+    rng = D.subrng(ctx, "c14-long")
+    long_words = [w for n in range(7, 10 if quick else 11) for w in P.strict_pinwords(n)]
+    want_n = 2500 if quick else 20000
+    while len(long_words) < 10 ** 6:
+        n = rng.randrange(7, 13)
+        w = "".join(rng.choice(P.ALPHABET) for _ in range(n))
+        if P.is_pinword(w):
+            long_words.append(w)
+        if len(long_words) >= want_n + 4 * 2 ** 9:
+            break
+    ctx.run("C14.decode", long_words, chunk=400,
+            rule="all strict pin words of length 7-9 (10 thorough) and seeded pin words of length 7-12: every pin placed against the whole history")
     ctx.add_sample("C14.decode", "3DL2UR")
     ctx.run("C14.enumeration", range(wmax + 1), chunk=1,
             rule=f"lengths 0..{wmax}: no duplicates, same set as filtering all 8^n words; strict words; is_strict_pinword on every pin word")
@@ -373,6 +389,13 @@ def run(ctx):
         ctx.run("C14.occurrences", items, chunk=40 if w1 <= 4 else 12, timeout_s=600,
                 rule=f"all pin words w of length {w0}..{w1} x all pin words u of length {lo}..{hi}: every listed occurrence "
                      "is a geometric witness; pinword_contains and the _sp variants agree with the listing")
+    # self-overlapping factors: a zig-zag run in w contains the zig-zag factor of u at OVERLAPPING positions
+    # (added after seeded change C14_c - regex finditer skips overlapping matches - was missed: smallest case
+    # |w| = 6, |u| = 5).  All strict zig-zag words of length 6-8 (9 thorough) against all permutations of length 5.
+    zig = [q + "".join((a, b)[i % 2] for i in range(n - 1)) for n in range(6, 9 if quick else 10) for q in P.NUMERALS
+           for (a, b) in (("U", "L"), ("L", "U"), ("U", "R"), ("R", "U"), ("D", "L"), ("L", "D"), ("D", "R"), ("R", "D"))]
+    ctx.run("C14.contains", [(w, 5, 5) for w in zig], chunk=4, timeout_s=900,
+            rule=f"{len(zig)} strict zig-zag pin words of length 6-8 x all permutations of length 5 (overlapping occurrences of one factor)")
     ctx.add_sample("C14.contains", ("1U", 0, 4), "known finding: '1U' is said to contain '11' (01 in 10)")
     ctx.assumptions += [
         "B layer: bounded; exhaustive up to the stated word / permutation lengths",
